@@ -4,7 +4,7 @@
    from /repo (Gen/C14_consts.v).  BigDec values are raw mantissas (x 10^36). *)
 From Coq Require Import ZArith List Bool Lia.
 Import ListNotations.
-From Osmo Require Import Base.DecModel Gen.C14_consts C14.Model C14.ProofsPrice C14.ProofsSqrt.
+From Osmo Require Import Base.DecModel Gen.C14_consts C14.Model C14.ProofsPrice C14.ProofsSqrt C14.ProofsRound C14.ProofsBucket C14.ProofsMain.
 Open Scope Z_scope.
 
 (* the documented geometric/additive formula, exactly, for every tick of the supported range:
@@ -86,3 +86,127 @@ Example C14_sqrt_nonvacuous :
   tick_to_sqrt_price (-107999999) = Ok 1000000500000000000000000000000 /\
   tick_to_sqrt_price 342000000 = Ok MaxSqrtPriceBigDec.
 Proof. vm_compute. repeat split; reflexivity. Qed.
+
+(* ---- sqrt price -> tick ---- *)
+(* bucket mapping on the swap-reachable range, for EVERY sqrt price between adjacent ticks: lower edge inclusive,
+   upper edge exclusive.  (Proof: the candidate computed from the half-even rounded square, chopped to 18 decimals,
+   searched in the decade table and divided by the increment is the true tick or its successor - parametric in the
+   decade exponent, no enumeration; the +-1 correction then selects the true tick because the sqrt price is
+   strictly increasing.) *)
+Theorem C14_sqrt_price_to_tick_bucket : forall t s st st1, MinInitializedTick <= t < MaxTick ->
+  tick_to_sqrt_price t = Ok st -> tick_to_sqrt_price (t + 1) = Ok st1 -> st <= s < st1 ->
+  calculate_sqrt_price_to_tick s = Ok t.
+Proof. exact bucket_main. Qed.
+Print Assumptions C14_sqrt_price_to_tick_bucket.
+
+(* the top edge is inclusive: the sqrt price of MaxTick maps to MaxTick *)
+Theorem C14_sqrt_price_to_tick_top_edge : forall sm,
+  tick_to_sqrt_price MaxTick = Ok sm -> calculate_sqrt_price_to_tick sm = Ok MaxTick.
+Proof. exact top_edge_main. Qed.
+Print Assumptions C14_sqrt_price_to_tick_top_edge.
+
+(* round trip on the swap-reachable range *)
+Theorem C14_round_trip : forall t st, MinInitializedTick <= t <= MaxTick ->
+  tick_to_sqrt_price t = Ok st -> calculate_sqrt_price_to_tick st = Ok t.
+Proof. exact round_trip_main. Qed.
+Print Assumptions C14_round_trip.
+
+(* soundness for ALL inputs: a returned tick is the tick whose bucket contains the sqrt price
+   (top edge inclusive only at MaxTick), and it lies in [MinCurrentTick - 1, MaxTick] *)
+Theorem C14_sqrt_price_to_tick_sound : forall s T, calculate_sqrt_price_to_tick s = Ok T ->
+  MinCurrentTick - 1 <= T <= MaxTick /\
+  exists sT, tick_to_sqrt_price T = Ok sT /\ sT <= s /\
+    ((T < MaxTick /\ exists sT1, tick_to_sqrt_price (T + 1) = Ok sT1 /\ s < sT1) \/ (T = MaxTick /\ s = sT)).
+Proof. exact sound_main. Qed.
+Print Assumptions C14_sqrt_price_to_tick_sound.
+
+(* out-of-range sqrt prices are rejected: everything above TickToSqrtPrice(MaxTick), and everything below
+   TickToSqrtPrice(MinCurrentTick - 1) - in particular zero and all negative values *)
+Theorem C14_sqrt_price_rejects : forall s lo hi,
+  tick_to_sqrt_price (MinCurrentTick - 1) = Ok lo -> tick_to_sqrt_price MaxTick = Ok hi ->
+  0 < lo /\ (s < lo \/ hi < s -> exists e, calculate_sqrt_price_to_tick s = Err e).
+Proof.
+  intros s lo hi E1 E2. apply sqrt_ok_inv in E1; [|vm_compute; split; discriminate].
+  apply sqrt_ok_inv in E2; [|vm_compute; split; discriminate]. subst.
+  split; [exact sqrt_of_min_pos|apply rejects_main].
+Qed.
+Print Assumptions C14_sqrt_price_rejects.
+
+(* FULL rejection claim for the low end (a sqrt price below the bucket of MinCurrentTick is rejected, i.e. every
+   returned tick is at least MinCurrentTick) is FALSE of the faithful model and of the code (known finding C14-F1):
+   the minimum-tick guard is applied to the candidate before the -1 correction.  The witness is replayed on the
+   Go code by the correspondence run (props/c14.py generates the sqrt prices TickToSqrtPrice(MinCurrentTick) - 1, -2 ulp). *)
+Definition C14_low_rejection_full : Prop :=
+  forall s T, calculate_sqrt_price_to_tick s = Ok T -> MinCurrentTick <= T.
+Theorem C14_low_rejection_refuted : exists s T, calculate_sqrt_price_to_tick s = Ok T /\ ~ MinCurrentTick <= T.
+Proof.
+  exists 999999949999998749999937499996, (MinCurrentTick - 1).
+  split; [apply below_min_current_witness|vm_compute; intros H; apply H; reflexivity].
+Qed.
+Print Assumptions C14_low_rejection_refuted.
+
+(* ---- spacing ---- *)
+(* RoundDownTickToSpacing (positive spacing): never up, by less than one spacing, onto a multiple, never out of
+   range; what it rejects is exactly a floor outside [MinInitializedTickV2, MaxTick] *)
+Theorem C14_round_down_spacing : forall t sp, 0 < sp ->
+  (forall r, round_down_tick_to_spacing t sp = Ok r ->
+     r <= t /\ t - r < sp /\ Z.rem r sp = 0 /\ r = sp * (t / sp) /\ MinInitializedTickV2 <= r <= MaxTick) /\
+  (forall e, round_down_tick_to_spacing t sp = Err e ->
+     e = ETickBounds /\ (sp * (t / sp) > MaxTick \/ sp * (t / sp) < MinInitializedTickV2)).
+Proof. intros t sp H; split; intros x Hx; [apply round_down_ok|apply round_down_err]; assumption. Qed.
+Print Assumptions C14_round_down_spacing.
+
+(* no tick of the range is rejected for an authorised spacing; ticks outside are (beyond one spacing above) *)
+Theorem C14_round_down_spacing_total : forall t sp, In sp AuthorizedTickSpacing ->
+  (MinInitializedTickV2 <= t <= MaxTick -> exists r, round_down_tick_to_spacing t sp = Ok r) /\
+  (t < MinInitializedTickV2 \/ MaxTick + sp <= t -> round_down_tick_to_spacing t sp = Err ETickBounds).
+Proof.
+  intros t sp Hin. split; [apply round_down_in_range, Hin|apply round_down_rejects].
+  pose proof authorized_spacing_ok as Ha. rewrite Forall_forall in Ha. apply (Ha sp Hin).
+Qed.
+Print Assumptions C14_round_down_spacing_total.
+
+(* SqrtPriceToTickRoundDownSpacing on the swap-reachable range: defined for every sqrt price of a bucket, and the
+   result is the bucket's tick rounded down to the spacing, still at or above MinInitializedTick *)
+Theorem C14_sqrt_price_to_tick_round_down_spacing : forall t s st st1 sp,
+  In sp AuthorizedTickSpacing -> MinInitializedTick <= t < MaxTick ->
+  tick_to_sqrt_price t = Ok st -> tick_to_sqrt_price (t + 1) = Ok st1 -> st <= s < st1 ->
+  exists r, sqrt_price_to_tick_round_down_spacing s sp = Ok r /\
+    r <= t /\ t - r < sp /\ Z.rem r sp = 0 /\ MinInitializedTick <= r.
+Proof. exact sqrt_round_down_total. Qed.
+Print Assumptions C14_sqrt_price_to_tick_round_down_spacing.
+
+(* ---- range validation ---- *)
+Theorem C14_validate_tick_range : forall sp lo hi, 0 < sp < 2 ^ 63 ->
+  (validate_tick_range_is_valid sp lo hi = Ok tt <->
+   Z.rem lo sp = 0 /\ Z.rem hi sp = 0 /\ MinInitializedTick <= lo /\ lo < hi /\ hi <= MaxTick).
+Proof. exact validate_spec. Qed.
+Print Assumptions C14_validate_tick_range.
+Theorem C14_validate_tick_range_rejects : forall sp lo hi e, 0 < sp < 2 ^ 63 ->
+  validate_tick_range_is_valid sp lo hi = Err e ->
+  (e = ETickSpacing /\ (Z.rem lo sp <> 0 \/ Z.rem hi sp <> 0)) \/
+  (e = EInvalidTick /\ (lo < MinInitializedTick \/ MaxTick <= lo \/ MaxTick < hi \/ hi <= MinInitializedTick)) \/
+  (e = ELowerUpper /\ hi <= lo).
+Proof. exact validate_rejects. Qed.
+Print Assumptions C14_validate_tick_range_rejects.
+
+(* on the swap-reachable range every tick is its own canonical tick: roundTickToCanonicalPriceTick (as called by
+   lp.go after TicksToSqrtPrice) returns a valid range unchanged *)
+Theorem C14_canonical_tick_fixed : forall sp lo hi, In sp AuthorizedTickSpacing ->
+  validate_tick_range_is_valid sp lo hi = Ok tt ->
+  exists sl su, ticks_to_sqrt_price lo hi = Ok (sl, su) /\
+                round_tick_to_canonical_price_tick lo hi sl su sp = Ok (lo, hi).
+Proof. exact canonical_fixed. Qed.
+Print Assumptions C14_canonical_tick_fixed.
+
+Example C14_bucket_nonvacuous :
+  MinInitializedTick <= 161795100 < MaxTick /\
+  tick_to_sqrt_price 161795100 = Ok 989701975344093167481857300000000000000000000 /\
+  tick_to_sqrt_price 161795101 = Ok 989702025864350749536406063000000000000000000 /\
+  calculate_sqrt_price_to_tick 989702025864350749536406062999999999999999999 = Ok 161795100 /\
+  calculate_sqrt_price_to_tick 989702025864350749536406063000000000000000000 = Ok 161795101 /\
+  In 100 AuthorizedTickSpacing /\
+  sqrt_price_to_tick_round_down_spacing 989702025864350749536406062999999999999999999 1000 = Ok 161795000 /\
+  validate_tick_range_is_valid 100 (-108000000) 342000000 = Ok tt /\
+  round_down_tick_to_spacing (-17) 10 = Ok (-20).
+Proof. vm_compute. repeat split; try discriminate; auto. Qed.
